@@ -20,7 +20,7 @@ from collections import deque
 
 from . import tm
 from .driver import Accounting, Suspend, Task
-from .instruments import Cancelled, InjectedError, Item
+from .instruments import Cancelled, InjectedBaseError, InjectedError, Item
 from .report import Verdict
 from .graph import stream_replays
 from .tlc import MachineryError, read_ndjson, run_tlc
@@ -75,7 +75,7 @@ class TeeSys:
                         await Suspend(sys_.acct, ("src", c, j))
                     if sys_.fail_next:
                         sys_.fail_next = False
-                        sys_.fail_exc = InjectedError("source failed")
+                        sys_.fail_exc = (InjectedBaseError if (sys_.srclen + sys_.n) % 2 == 0 else InjectedError)("source failed")
                         raise sys_.fail_exc
                     if sys_.pos >= len(sys_.items):
                         raise StopAsyncIteration
@@ -165,7 +165,7 @@ class TeeSys:
             elif isinstance(exc, Cancelled):
                 self.ev(e="cancelled", c=c)
                 self.cs[c] = "cancelled"
-            elif isinstance(exc, InjectedError):
+            elif isinstance(exc, (InjectedError, InjectedBaseError)):
                 self.ev(e="failed", c=c, same=exc is self.fail_exc)
                 self.cs[c] = "failed"
             else:
@@ -376,6 +376,8 @@ CHECK_DEADLOCK FALSE
     return out
 
 
+REPLAY_CAP = 40000
+
 TIERS = {
     # (NChild, SrcLen, Susp, UseLock)
     # (NChild, SrcLen, Susp, UseLock, ExitSusp)
@@ -585,6 +587,14 @@ def check(prop, tier, seed, into=None):
         tot["demand_model_states"] += res2["distinct"]
         paths = build_paths(edges)
         tot["paths"] += len(paths)
+        # the largest configurations are model-checked in full but replayed on an evenly spaced part of their edge cover
+        # (every k-th path in BFS order, at most REPLAY_CAP per configuration): a full replay of all nine thorough
+        # configurations took an hour and a half on 16 idle cores
+        if len(paths) > REPLAY_CAP:
+            k_ = -(-len(paths) // REPLAY_CAP)
+            off_ = seed % k_
+            tot["paths_not_replayed"] = tot.get("paths_not_replayed", 0) + len(paths) - len(paths[off_::k_])
+            paths = paths[off_::k_]
         jobs = [((n, srclen, susp, uselock, exitsusp, closable), p, False) for p in paths]
         del edges, paths
         cap = 1000 if tier == "mini" else 3000 if tier == "quick" else 20000
@@ -649,13 +659,15 @@ def check(prop, tier, seed, into=None):
         raise MachineryError(f"vacuity guard: actions never taken in the explored graphs: {missing}")
     return v.finish({
         "states": tot["states"], "transitions": tot["transitions"],
-        "traces_validated_against_impl": tot["validated"] + tot["paths"],
-        "edge_cover_paths": tot["paths"], "edges": tot["edges"], "drifted_replays": tot["drift"],
+        "traces_validated_against_impl": tot["validated"] + tot["paths"] - tot.get("paths_not_replayed", 0),
+        "edge_cover_paths": tot["paths"], "edge_cover_paths_replayed": tot["paths"] - tot.get("paths_not_replayed", 0),
+        "edges": tot["edges"], "drifted_replays": tot["drift"],
         "drift_benign": tot["drift_benign"], "random_schedule_traces": tot["random_traces"], "asyncio_loop_traces": len(aio),
         "traces_validated_by_TLC_against_TeeObs": tot["validated"], "trace_validation": st,
         "demand_model_states": tot["demand_model_states"],
-        "configs": [list(c) for c in TIERS[tier]], "exhaustive": True, "vacuity_guard_actions_taken": vac,
-        "evaluations": tot["paths"] + tot["random_traces"], "distinct_nontrivial": tot["paths"],
-        "rule": "one replay per transition of the Tee state graph (shortest path + edge + drain); every path is distinct by construction",
+        "configs": [list(c) for c in TIERS[tier]], "exhaustive": not tot.get("paths_not_replayed"), "vacuity_guard_actions_taken": vac,
+        "evaluations": tot["paths"] - tot.get("paths_not_replayed", 0) + tot["random_traces"], "distinct_nontrivial": tot["paths"] - tot.get("paths_not_replayed", 0),
+        "rule": "one replay per transition of the Tee state graph (shortest path + edge + drain); every path is distinct by construction"
+                + (f"; configurations with more than {REPLAY_CAP} transitions are model-checked in full and replayed on every k-th path" if tot.get("paths_not_replayed") else ""),
         "checker_cmd": "tlc -config <generated> spec/Tee.tla ; tlc -workers 1 spec/TeeObs.tla (TRACE_FILE=...)",
     })
